@@ -19,7 +19,24 @@ var Registry = map[string]func(){
 }
 
 // a three-state protocol: S0 (server agency) --1--> S1 (client agency) --2--> S2 (server
-// agency) --3--> Done (nobody)
+// agency) --3--> Done (nobody); S0 --5--> S2 keeps the agency with the server (so a message can
+// follow another from the same side), S1 --4--> S1 is a self-loop
+func refNext(cur protocol.State, t uint8) (protocol.State, bool) {
+	switch {
+	case cur == s0 && t == 1:
+		return s1, true
+	case cur == s0 && t == 5:
+		return s2, true
+	case cur == s1 && t == 2:
+		return s2, true
+	case cur == s1 && t == 4:
+		return s1, true
+	case cur == s2 && t == 3:
+		return done, true
+	}
+	return cur, false
+}
+
 var (
 	s0   = protocol.NewState(1, "S0")
 	s1   = protocol.NewState(2, "S1")
@@ -32,7 +49,7 @@ var probe1 func() time.Duration
 
 func stateMap(t1, t2 time.Duration, probe func() time.Duration) protocol.StateMap {
 	return protocol.StateMap{
-		s0:   {Agency: protocol.AgencyServer, Timeout: t1, Transitions: []protocol.StateTransition{{MsgType: 1, NewState: s1}}},
+		s0:   {Agency: protocol.AgencyServer, Timeout: t1, Transitions: []protocol.StateTransition{{MsgType: 1, NewState: s1}, {MsgType: 5, NewState: s2}}},
 		s1:   {Agency: protocol.AgencyClient, Timeout: t1, TimeoutFunc: probe1, Transitions: []protocol.StateTransition{{MsgType: 2, NewState: s2}, {MsgType: 4, NewState: s1}}},
 		s2:   {Agency: protocol.AgencyServer, Timeout: t2, TimeoutFunc: probe, Transitions: []protocol.StateTransition{{MsgType: 3, NewState: done}}},
 		done: {Agency: protocol.AgencyNone},
@@ -82,7 +99,7 @@ func RecvGate() {
 		}})
 	sym.RunUntilBlocked(protocol.VerifStateLoopBody(p)) // initial state and its ready token
 	t1, t2 := sym.U8("type1"), sym.U8("type2")
-	sym.Assume(t1 <= 3 && t2 <= 3)
+	sym.Assume(t1 <= 5 && t2 <= 5)
 	protocol.VerifQueueRecv(p, msg(t1))
 	protocol.VerifQueueRecv(p, msg(t2))
 	blocked := sym.RunUntilBlocked(func() { protocol.VerifRecvLoop(p) })
@@ -97,15 +114,7 @@ func RecvGate() {
 		if failed || !peerHasAgency(server, cur) {
 			break
 		}
-		next, ok := cur, false
-		switch {
-		case cur == s0 && t == 1:
-			next, ok = s1, true
-		case cur == s1 && t == 2:
-			next, ok = s2, true
-		case cur == s2 && t == 3:
-			next, ok = done, true
-		}
+		next, ok := refNext(cur, t)
 		if !ok {
 			failed = true
 			break
@@ -143,7 +152,7 @@ func StateStep() {
 	}
 	p := protocol.VerifLoopProtocol(protocol.ProtocolConfig{Name: "t", Role: role(server), StateMap: stateMap(0, 0, nil), InitialState: start})
 	t1, t2 := sym.U8("type1"), sym.U8("type2")
-	sym.Assume(t1 <= 3 && t2 <= 3)
+	sym.Assume(t1 <= 5 && t2 <= 5)
 	run, results := protocol.VerifRunStateLoop(p, []protocol.Message{msg(t1), msg(t2)})
 	blocked := sym.RunUntilBlocked(run)
 	sym.Reach("ran")
@@ -151,15 +160,7 @@ func StateStep() {
 	// reference
 	cur := start
 	for i, t := range []uint8{t1, t2} {
-		next, ok := cur, false
-		switch {
-		case cur == s0 && t == 1:
-			next, ok = s1, true
-		case cur == s1 && t == 2:
-			next, ok = s2, true
-		case cur == s2 && t == 3:
-			next, ok = done, true
-		}
+		next, ok := refNext(cur, t)
 		sym.Assert(len(results[i]) == 1, "every transition request is answered")
 		err := <-results[i]
 		sym.Assert((err == nil) == ok, "a transition is accepted iff the message is permitted in the current state")
